@@ -362,9 +362,14 @@ def gen_xfer(rng, n):
     return out
 
 
+LENIENT_IO = False
+
+
 def gen_io(rng, n):
     out = []
-    dids = [d for d, e in IO.items() if d not in (0x6666, 0x8888) and e['codec'][0] != 'raw']
+    # 0x7878 has a codec of fixed length whose decode() takes whatever it is handed: only the suite that asks for it (padding: the library, not the codec, must notice
+    # trailing bytes) draws it - for shortened data such a codec is outside the model's contract (a codec decodes exactly its length)
+    dids = [d for d, e in IO.items() if d not in (0x6666, 0x8888, 0x7777) and (LENIENT_IO or d != 0x7878)]
     for _ in range(n):
         did = rng.choice(dids)
         e = IO[did]
